@@ -107,6 +107,8 @@ C01(t) ==
   /\ Chk(out.ret # "panic", "C01|" \o o \o "|panic", out)
   /\ Chk(out.nmsgs <= 1, "C01|" \o o \o "|multiple-replies|" \o t.tr, out.msglens)
   /\ Chk(out.canary_ok, "C01|" \o o \o "|out-of-bounds-write|" \o t.tr, out)
+  \* symptom of a read outside the supplied request: a name handed to the file system that is not made of request bytes
+  /\ Chk(out.names_from_request, "C01|" \o o \o "|name-bytes-not-from-request|" \o t.tr, out)
   \* READ / READDIR / READDIRPLUS let the file system write its output through a cursor behind the header space
   \* before the outcome is known: when it then fails, the error reply is the message and what was written
   \* behind it lies inside the supplied reply buffer (not outside it, and not a second message)
